@@ -4,6 +4,7 @@ package main
 // points (passive form): loops are cut at their headers with an invariant.
 
 import (
+	"os"
 	"fmt"
 	"go/ast"
 	"go/constant"
@@ -212,6 +213,9 @@ func (fr *Frame) run(pc0 *Term, st0 *State) (*Term, *State, []Value) {
 			}
 		}
 		fr.curBlock = b
+		if fr.isRoot && os.Getenv("GOVC_TRACE") != "" {
+			fmt.Fprintf(os.Stderr, "trace: block %d (%s) pc-false=%v\n", b.Index, b.Comment, pc.IsFalse())
+		}
 		if lp := fr.li.ByHeader[b]; lp != nil {
 			pc, st = fr.cutLoop(lp, pc, st)
 		}
@@ -1400,13 +1404,16 @@ func (fr *Frame) cutLoop(lp *Loop, pc *Term, st *State) (*Term, *State) {
 	ms := fr.loopModSet(lp, st)
 	if ms.all {
 		x.havocAll(st)
-	} else {
+	}
+	{
 		var names []string
 		for n := range ms.names {
 			names = append(names, n)
 		}
 		sort.Strings(names)
-		x.havocNames(st, names)
+		if len(names) > 0 {
+			x.havocNames(st, names)
+		}
 	}
 	for id := range ms.cells {
 		if old, ok := st.cells[id]; ok {
